@@ -19,6 +19,10 @@ func ruleC04(prog *Program, rep *Report) {
 	ruleWriterParity(prog, rep)
 	ruleSortedEmit(prog, rep)
 	ruleClamp(prog, rep)
+	// a Writer shared through the pool or left half-configured by the previous call does not emit the text of the in-memory call
+	rulePoolPut(prog, rep)
+	ruleReturnAlias(prog, rep, "C04")
+	ruleEntryParity(prog, rep)
 }
 
 func mentionsField(n ast.Node, names map[string]bool) bool {
